@@ -1113,3 +1113,28 @@ V("C19", "benign-battery-guard-excludes-zero-power", L,
   ("    elif energy_now is not None and power_now is not None:\n        try:\n            secsleft = int(energy_now / power_now * 3600)\n        except ZeroDivisionError:\n            secsleft = _common.POWER_TIME_UNKNOWN\n",
    "    elif energy_now is not None and power_now is not None and power_now == 0:\n        secsleft = _common.POWER_TIME_UNKNOWN\n    elif energy_now is not None and power_now is not None:\n        secsleft = int(energy_now / power_now * 3600)\n"),
   "silent")
+W = "psutil/_pswindows.py"
+V("C20", "bsd-is-zombie-raw-szomb", "psutil/_psbsd.py",
+  ("        return PROC_STATUSES.get(st) == _common.STATUS_ZOMBIE", "        return st == cext.SZOMB"),
+  "fires:C20.R2")
+V("C20", "benign-bsd-is-zombie-table-subscript", "psutil/_psbsd.py",
+  ("        return PROC_STATUSES.get(st) == _common.STATUS_ZOMBIE",
+   "        return _common.STATUS_ZOMBIE == PROC_STATUSES.get(st)"), "silent")
+V("C20", "win-meminfo-fallback-swapped", W,
+  ("                    info[pinfo_map['pagefile']],\n                    info[pinfo_map['peak_pagefile']],",
+   "                    info[pinfo_map['peak_pagefile']],\n                    info[pinfo_map['pagefile']],"),
+  "fires:C20.R5")
+V("C20", "win-io-fallback-swapped", W,
+  ("                info[pinfo_map['io_rbytes']],\n                info[pinfo_map['io_wbytes']],",
+   "                info[pinfo_map['io_wbytes']],\n                info[pinfo_map['io_rbytes']],"),
+  "fires:C20.R5")
+V("C20", "win-cputimes-fallback-swapped", W,
+  ("            user = info[pinfo_map['user_time']]\n            system = info[pinfo_map['kernel_time']]",
+   "            user = info[pinfo_map['kernel_time']]\n            system = info[pinfo_map['user_time']]"),
+  "fires:C20.R5")
+V("C20", "win-vms-wrong-slot", W,
+  ("        vms = t[7]  # pagefile", "        vms = t[8]  # pagefile"), "fires:C20.R5")
+V("C20", "win-meminfo-c-builder-swapped", "psutil/arch/windows/proc.c",
+  ("        (unsigned long long)cnt.PagefileUsage,\n        (unsigned long long)cnt.PeakPagefileUsage,",
+   "        (unsigned long long)cnt.PeakPagefileUsage,\n        (unsigned long long)cnt.PagefileUsage,"),
+  "fires:C20.R5")
